@@ -4,13 +4,13 @@ ENV = os.path.join(os.path.dirname(os.path.dirname(os.path.abspath(__file__))), 
 CG = "bindgen/codegen/mod.rs"
 
 # `<flag expression> .then(|| quote!(unsafe))` -> `then_unsafe_kw(<flag expression>)`, the flag expression taken from the source
-THEN = r"re:(ctx\s*\.options\(\)\s*\.rust_features\s*\.\w+)\s*\.then\(\|\|\s*quote!\(unsafe\)\)"
-THEN_NEW = r"then_unsafe_kw(\1)"
+THEN = r"re:let safety\s*=\s*((?:.|\n)*?)\s*\.then\(\|\|\s*quote!\(unsafe\)\)"
+THEN_NEW = r"let safety = then_unsafe_kw(\1)"
 
 
 def site(name, impl, nth_label):
     return {"kind": "fn", "file": CG, "name": name, "impl": impl, "ret": "r",
-            "closure": {"enclosing": "codegen", "anchor": "let safety = ctx", "nth": 0, "stmt": "let",
+            "closure": {"enclosing": "codegen", "anchor_re": r"(?m)^\s*let safety\s*=", "nth": 0, "stmt": "let",
                         "signature": "fn %s(ctx: &BindgenContext) -> (r: Option<Tok>)" % name,
                         "prefix": "{", "suffix": "; safety }"},
             "subst": [(THEN, THEN_NEW, 1, "R7")],
